@@ -182,6 +182,18 @@ func solveAll(gens []*Gen, prelude string, outDir string, timeoutS int, workers 
 		}
 	}
 	os.MkdirAll(outDir, 0o755)
+	// one file per obligation: same-named functions of different packages (both
+	// "lifecycle") must not share a file
+	files := map[*Obligation]string{}
+	used := map[string]int{}
+	for _, j := range jobs {
+		base := sanitize(j.o.Name)
+		used[base]++
+		if n := used[base]; n > 1 {
+			base = fmt.Sprintf("%s.dup%d", base, n)
+		}
+		files[j.o] = base
+	}
 	var wg sync.WaitGroup
 	ch := make(chan job)
 	for w := 0; w < workers; w++ {
@@ -189,7 +201,7 @@ func solveAll(gens []*Gen, prelude string, outDir string, timeoutS int, workers 
 		go func() {
 			defer wg.Done()
 			for j := range ch {
-				file := filepath.Join(outDir, sanitize(j.o.Name)+".smt2")
+				file := filepath.Join(outDir, files[j.o]+".smt2")
 				os.WriteFile(file, []byte(j.g.smtText(j.o, prelude, false)), 0o644)
 				var r SolveResult
 				if j.o.Must == "sat" {
@@ -201,7 +213,7 @@ func solveAll(gens []*Gen, prelude string, outDir string, timeoutS int, workers 
 				}
 				if r.Status == "sat" && j.o.Must != "sat" {
 					// get a model from the solver that answered
-					mfile := filepath.Join(outDir, sanitize(j.o.Name)+".model.smt2")
+					mfile := filepath.Join(outDir, files[j.o]+".model.smt2")
 					os.WriteFile(mfile, []byte(j.g.smtText(j.o, prelude, true)), 0o644)
 					for _, sp := range solvers {
 						if sp.name == r.Solver {
